@@ -7,7 +7,7 @@ open Genshi Genshi.Match Genshi.Sexp
 /-
   C12 run <fuel> ( item … )
      item := ( S name ) | ( E name ) | ( T text )
-           | ( REG spec ( bitem … ) buffered once recursive )
+           | ( REG spec ( bitem … ) buffer once recursive )     the three attribute values, N = absent
      spec := ( one name|N pos|N ) | ( chain ( ( name … ) … ) )
      bitem := ( S name ) | ( E name ) | ( T text ) | ( SEL dot|node|elems|text|nodeText ) | ( SEL named name )
   answer: ( ok ( event … ) ) | unmodelled | ( err fuel )
@@ -61,8 +61,8 @@ def item? : Sexp → Option (Item PSt)
   | .list [.atom "REG", spec, .list body, b, o, r] => do
       let spec ← spec? spec
       let body ← body.mapM bitem?
-      let b ← b.toBool?; let o ← o.toBool?; let r ← r.toBool?
-      pure (.reg (mkMT spec body b o r))
+      let b ← optName? b; let o ← optName? o; let r ← optName? r
+      pure (.reg (mkMT spec body (parseHints b o r)))
   | x => (ev? x).map .ev
 
 def allBuffered : List (Item PSt) → Bool
